@@ -394,6 +394,8 @@ class DMRGEngine(IterativeSweeps):
         """
         max_E_err = self.options.get('max_E_err', 1.0e-8, 'real')
         max_S_err = self.options.get('max_S_err', 1.0e-5, 'real')
+        if len(self.sweep_stats['E']) < 1:
+            return False  # no sweep done (yet), e.g. resuming from a checkpoint without statistics
         E = self.sweep_stats['E'][-1]
         Delta_E = self.sweep_stats['Delta_E'][-1]
         Delta_S = self.sweep_stats['Delta_S'][-1]
@@ -489,6 +491,13 @@ class DMRGEngine(IterativeSweeps):
                 )
             self.psi.canonical_form()
 
+    def get_resume_data(self, sequential_simulations=False):
+        data = super().get_resume_data(sequential_simulations)
+        if not sequential_simulations:
+            # the convergence criteria compare with the previous sweep(s)
+            data['sweep_stats'] = self.sweep_stats
+        return data
+
     def reset_stats(self, resume_data=None):
         """Reset the statistics, useful if you want to start a new sweep run."""
         super().reset_stats(resume_data)
@@ -516,6 +525,9 @@ class DMRGEngine(IterativeSweeps):
             'max_chi': [],
             'norm_err': [],
         }
+        if resume_data is not None and 'sweep_stats' in resume_data:
+            for key, values in resume_data['sweep_stats'].items():
+                self.sweep_stats[key] = list(values)
 
     def sweep(self, optimize=True, meas_E_trunc=False):
         """One 'sweep' of the algorithm.
